@@ -123,6 +123,10 @@ func (vm *VM) convertPanic(msg any) error {
 		return err
 	case outError:
 		return vm.newPanic(err)
+	case *fatalError:
+		// It is already a fatal error, do not wrap it in another one.
+		// TODO: check env.
+		return err
 	}
 	switch op := vm.fn.Body[vm.pc-1].Op; op {
 	case OpAddr, OpIndex, -OpIndex, OpIndexRef, -OpIndexRef, OpSetSlice, -OpSetSlice:
@@ -154,9 +158,6 @@ func (vm *VM) convertPanic(msg any) error {
 		switch msg := msg.(type) {
 		case runtimeError:
 			break
-		case *fatalError:
-			// TODO: check env.
-			return msg
 		case runtime.Error:
 			// TODO: check env.
 			break
